@@ -15,6 +15,7 @@ import (
 	"github.com/resgateio/resgate/server/rescache"
 	"github.com/resgateio/resgate/server/reserr"
 	"github.com/resgateio/resgate/server/rpc"
+	"github.com/resgateio/resgate/server/verifhook"
 	"github.com/rs/xid"
 )
 
@@ -206,6 +207,7 @@ func (c *wsConn) Enqueue(f func()) bool {
 func (c *wsConn) enqueue(f func()) {
 	count := len(c.queue)
 	c.queue = append(c.queue, f)
+	verifhook.Note("connq", c.cid)
 	// If the queue was empty, the worker is idling
 	// Let's wake it up.
 	if count == 0 {
@@ -683,7 +685,9 @@ func (c *wsConn) outputWorker() {
 		for len(c.queue) > idx {
 			f = c.queue[idx]
 			c.mu.Unlock()
+			verifhook.Gate("conn", c.cid)
 			f()
+			verifhook.Done("conn", c.cid)
 			idx++
 			c.mu.Lock()
 		}
